@@ -57,6 +57,7 @@ Explained(h) ==
 C02_serial(h) == h.facts.crashes = 0 => Explained(h)
 C02_wholelines(h) == h.facts.crashes = 0 => h.facts.log_ok
 C02_nowait(h) == h.facts.all_exited
+C01_nowait(h) == h.facts.all_exited       \* a claimer never waits for the lock: it fails fast
 C02_busy_fast(h) == \A k \in Idx(h) : h.procs[k].busy => h.procs[k].exit # 0
 
 \* C01 - claim: restricted to runs whose commands are all `claim`s (plus commands
